@@ -462,6 +462,10 @@ def run_property(pid: str, tier: str, seed: int, only_legs=None, n_override=None
         with ctxm.Pool(min(procs, len(tasks))) as pool:
             for r in pool.imap_unordered(_worker, tasks, chunksize=1):
                 results.append(r)
+            # let the workers exit on their own (the context manager would terminate them; a graceful exit lets tools that
+            # hook process exit - e.g. a line-coverage measurement of the quick tier - see the workers too)
+            pool.close()
+            pool.join()
 
     # known-finding replay step
     known_lines = []
